@@ -181,7 +181,11 @@ func opts(flags uint32) []interpreter.ExecutionOptionFunc {
 // accepts: the real interpreter on input i of the transaction described by s (a fresh object per run:
 // the engine writes the previous output into the transaction it is handed)
 func accepts(s txgen.TxSpec, i int, flags uint32) (ok bool, msg string) {
-	tx := txgen.Build(s)
+	// the transaction as it comes off the wire: the checked input does not record its previous output,
+	// the engine gets it through WithTx only (thread.apply must install script and value)
+	wire := cloneSpec(s)
+	wire.Ins[i].Prev, wire.Ins[i].PrevNil, wire.Ins[i].Sats = "", true, 0
+	tx := txgen.Build(wire)
 	prev := &bt.Output{Satoshis: s.Ins[i].Sats, LockingScript: bscript.NewFromBytes(common.Unhex(s.Ins[i].Prev))}
 	var err error
 	panicked, pm := common.Safely(func() {
@@ -596,6 +600,8 @@ func main() {
 	rounds := 1
 	if search {
 		rounds = 3
+	} else if thorough {
+		rounds = 4 // fresh keys and fields for every shape x type, four times over
 	}
 	n := 0
 	for round := 0; round < rounds; round++ {
@@ -621,6 +627,6 @@ func main() {
 			}
 		}
 	}
-	c.Stats.Rule = "each case: a transaction shape (inputs 1..4, outputs 0..4, signed position; quick: 12 shapes covering idx<nouts, idx=nouts-1, idx=nouts, idx>nouts; thorough: all 50) x one of the 6 FORKID types (flags FORKID|GENESIS) or 6 legacy types (flags none / GENESIS) x P2PKH or P2PKH-inscription previous output (built with the library: NewP2PKHFromPubKeyBytes, Tx.Inscribe), fresh seeded keys per input, random fields, pairwise distinct outputs; all inputs signed through unlocker.Simple (tx.FillInput; tx.FillAllInputs for ALL|FORKID on every other shape), every input run through the real interpreter; then EVERY single-field mutation at EVERY position (version, locktime, per input txid/vout/sequence, per output value/script, output insert at 0..n and remove, input insert at 0..n and remove (not the signed one), spent value, spent script (+OP_NOP; inscription payload byte)) applied to a copy, interpreter re-run on the signed input and preimage recomputed. A case is distinct by (kind, type, shape, position, preimage) and non-trivial when at least one mutation was evaluated; Coq re-computes all preimages, the table and the interpreter model verdicts."
+	c.Stats.Rule = "each case: a transaction shape (inputs 1..4, outputs 0..4, signed position; quick: 12 shapes covering idx<nouts, idx=nouts-1, idx=nouts, idx>nouts; thorough: all 50, four rounds of fresh keys and fields) x one of the 6 FORKID types (flags FORKID|GENESIS) or 6 legacy types (flags none / GENESIS) x P2PKH or P2PKH-inscription previous output (built with the library: NewP2PKHFromPubKeyBytes, Tx.Inscribe), fresh seeded keys per input, random fields, pairwise distinct outputs; all inputs signed through unlocker.Simple (tx.FillInput; tx.FillAllInputs for ALL|FORKID on every other shape), every input run through the real interpreter; then EVERY single-field mutation at EVERY position (version, locktime, per input txid/vout/sequence, per output value/script, output insert at 0..n and remove, input insert at 0..n and remove (not the signed one), spent value, spent script (+OP_NOP; inscription payload byte)) applied to a copy, interpreter re-run on the signed input and preimage recomputed. A case is distinct by (kind, type, shape, position, preimage) and non-trivial when at least one mutation was evaluated; Coq re-computes all preimages, the table and the interpreter model verdicts."
 	c.Finish()
 }
